@@ -80,6 +80,7 @@ impl<'a, T: LangInterpreter> WordToDigitParser<'a, T> {
 /// Return an error if the text couldn't be undestood as a valid number.
 pub fn text2digits<T: LangInterpreter>(text: &str, lang: &T) -> Result<String, Error> {
     match lang.exec_group(text.to_lowercase().split_whitespace()) {
+        Ok(ds) if ds.is_empty() => Err(Error::NaN),
         Ok(ds) => Ok(lang.format_and_value(&ds).0),
         Err(err) => Err(err),
     }
